@@ -1,24 +1,21 @@
 (* P_C19.v — property C19: FunctionTest verdicts are sound — a test case passes
    iff its assertion holds for what the Function did.  Statements only; proofs
    are in proofs/FnTestMatch_proofs.v.  Model: model/FnTestMatch.v
-   (src/koreo/function_test/run.py, prepare.py).
+   (src/koreo/function_test/run.py as repaired by 58c8051 and 87fca03, prepare.py).
 
    Vocabulary (defined in FnTestMatch_proofs.v, independently of the algorithm):
-     equiv E K s t a   "the actual value a is what the expectation t describes":
+     equiv s t a       "the actual value a is what the expectation t describes":
                        equal, nothing missing, nothing extra, modulo the
-                       x-koreo-compare-as-set / -as-map directives of t.  E is the
-                       equality between members of set-compared lists, K the
-                       reading of a map-directed value as a keyed collection.
-       exact reading   E = py_eq (Python ==: True = 1 = 1.0), K = list_to_object
-                       (anything iterable; "" and {} count as empty collections)
-       strict reading  E = strict_eq (a boolean only equals a boolean),
-                       K = keyed_list (a list of objects)
+                       x-koreo-compare-as-set / -as-map directives of t.  Members of a
+                       set-compared list are equal under Python == with a boolean only
+                       equal to a boolean (strict_eq); a map-directed value is a list
+                       of objects read as the collection keyed by the fields (keyed_list)
      apart x y         the two documents differ somewhere (declarative)
      deviates1 x y     y is x with ONE deviation at any depth: changed / retyped
                        leaf, missing key, extra key, list length change, reorder of
                        distinct elements
      dfree t           t has no directive-named key anywhere
-     regular t         t uses the directives as documented (see C19_tmatch_iff_regular)
+     regular t         every directive value in t has the documented shape
      outcome_holds e a same class, message contained case-insensitively ('' matches
                        anything), non-zero delay equal; None = "ok" = a plain value *)
 From Koreo Require Import Json Outcome FnTestMatch FnTestMatch_proofs.
@@ -30,71 +27,63 @@ Section C19.
   Variable key_text : json -> string.
 
   Notation tmatch := (tmatch key_text).
-  Notation equiv_exact := (equiv py_eq (list_to_object key_text)).
-  Notation equiv_strict := (equiv strict_eq (keyed_list key_text)).
+  Notation equiv := (equiv key_text).
 
   (* the comparator always has enough fuel: MFuel is never its answer *)
   Theorem C19_fuel : forall t a, tmatch t a <> MFuel.
   Proof. exact (tmatch_never_out_of_fuel key_text). Qed.
 
-  (* "the object ... equals the expected object exactly (nothing missing, nothing
-     extra, modulo compare directives)": the comparator passes EXACTLY when the
-     actual value is what the expectation describes — for every expectation and
-     every actual value, directives included, no side condition (exact reading) *)
-  Theorem C19_tmatch_exact : forall t a, tmatch t a = MDone true <-> equiv_exact false t a.
+  (* tmatch_iff — "the object ... equals the expected object exactly (nothing
+     missing, nothing extra, modulo compare directives)": the comparator passes
+     EXACTLY when the actual value is what the expectation describes — for every
+     expectation and every actual value, directives included, no side condition *)
+  Theorem C19_tmatch_iff : forall t a, tmatch t a = MDone true <-> equiv false t a.
   Proof. exact (tmatch_exact key_text). Qed.
 
-  (* "an assertion derived from the Function's actual behaviour passes": under
-     the STRICT reading too, for every expectation, directives included *)
-  Theorem C19_tmatch_complete : forall t a, equiv_strict false t a -> tmatch t a = MDone true.
-  Proof. exact (tmatch_complete key_text). Qed.
+  (* "an assertion derived from the Function's actual behaviour passes" *)
+  Theorem C19_tmatch_complete : forall t a, equiv false t a -> tmatch t a = MDone true.
+  Proof. intros t a. apply (tmatch_exact key_text). Qed.
 
-  (* tmatch_iff, strict reading, expectation without directives (what
-     expectReturn / expectResource normally hold): pass iff exactly equal *)
-  Theorem C19_tmatch_iff : forall t a,
-    dfree t = true -> (tmatch t a = MDone true <-> equiv_strict false t a).
-  Proof. exact (tmatch_iff_dfree key_text). Qed.
+  (* the comparator yields a verdict (never raises), whatever the actual value,
+     for every expectation whose directive values have the documented shape *)
+  Theorem C19_tmatch_total : forall t a,
+    regular key_text t = true -> exists b, tmatch t a = MDone b.
+  Proof. exact (regular_total key_text). Qed.
 
-  (* tmatch_iff, strict reading, for EVERY expectation that uses the directives as
-     documented ([regular]: well-shaped directive values; a map-directed key holds a
-     non-empty list of objects keyed by >= 1 field, no key text being a directive
-     name; set-directed lists hold no booleans) and every actual value none of whose
-     lists directly holds a boolean: pass iff the actual value is exactly what the
-     expectation describes.  The side conditions exclude exactly the three
-     departures witnessed below (findings F1, F2b, F2). *)
-  Theorem C19_tmatch_iff_regular : forall t a,
-    regular key_text t = true -> nobool_lists a = true ->
-    (tmatch t a = MDone true <-> equiv_strict false t a).
-  Proof. exact (tmatch_iff_regular key_text). Qed.
+  (* the three repaired defects, as positive statements: a boolean and the equal
+     number are kept apart in a set-compared list; under a map directive a value
+     that is not a list of objects — null, a list holding a scalar, '' for [] —
+     fails (no raise, no false pass) *)
+  Theorem C19_set_bool_number_kept_apart :
+    tmatch (JMap [("l"%string, JList [JBool true; JStr "z"]); (K_SET, JList [JStr "l"])])
+           (JMap [("l"%string, JList [JStr "z"; JInt 1])]) = MDone false.
+  Proof. exact (set_bool_number_kept_apart key_text). Qed.
 
-  (* without them the strict statement is false: *)
-  Theorem C19_tmatch_sound_strict_refuted_set_bool :
-    exists t a, tmatch t a = MDone true /\ ~ equiv_strict false t a.
-  Proof. exact (tmatch_sound_strict_refuted_set_bool key_text). Qed.
+  Theorem C19_map_actual_not_a_list_fails :
+    tmatch (JMap [("items"%string, JList [JMap [("name"%string, JStr "a")]]);
+                  (K_MAP, JMap [("items"%string, JList [JStr "name"])])])
+           (JMap [("items"%string, JNull)]) = MDone false.
+  Proof. exact (map_actual_not_a_list_fails key_text). Qed.
 
-  Theorem C19_tmatch_sound_strict_refuted_map_empty :
-    exists t a, tmatch t a = MDone true /\ ~ equiv_strict false t a.
-  Proof. exact (tmatch_sound_strict_refuted_map_empty key_text). Qed.
-
-  (* the comparator is not total: with a map directive, an actual value that is
-     not a list of objects raises instead of producing a failing verdict *)
-  Theorem C19_tmatch_total_refuted : exists t a, tmatch t a = MRaised.
-  Proof. exact (tmatch_raises key_text). Qed.
+  Theorem C19_map_empty_string_is_not_the_empty_list :
+    tmatch (JMap [("items"%string, JList []); (K_MAP, JMap [("items"%string, JList [JStr "name"])])])
+           (JMap [("items"%string, JStr "")]) = MDone false.
+  Proof. exact (map_empty_string_is_not_the_empty_list key_text). Qed.
 
   (* "any single deviation from it fails": the actual value deviates ... *)
   Theorem C19_single_deviation_fails : forall t a a',
-    dfree t = true -> equiv_exact false t a -> deviates1 a a' -> tmatch t a' = MDone false.
+    dfree t = true -> equiv false t a -> deviates1 a a' -> tmatch t a' = MDone false.
   Proof. exact (single_deviation_fails key_text). Qed.
 
   (* ... or (the property's own quantifier) the ASSERTION is perturbed *)
   Theorem C19_single_deviation_of_assertion_fails : forall t t' a,
-    dfree t = true -> dfree t' = true -> equiv_exact false t a -> deviates1 t t' ->
+    dfree t = true -> dfree t' = true -> equiv false t a -> deviates1 t t' ->
     tmatch t' a = MDone false.
   Proof. exact (single_deviation_of_assertion_fails key_text). Qed.
 
   (* not only single deviations: any two documents that differ somewhere *)
   Theorem C19_apart_fails : forall t a a',
-    dfree t = true -> equiv_exact false t a -> apart a a' -> tmatch t a' = MDone false.
+    dfree t = true -> equiv false t a -> apart a a' -> tmatch t a' = MDone false.
   Proof. exact (apart_actual_fails key_text). Qed.
 
   (* "expectOutcome only for the same outcome class with the message contained
@@ -110,7 +99,7 @@ Section C19.
 
   (* "expectReturn only for an Ok result equal to the expected value" *)
   Theorem C19_verdict_return_iff : forall e a,
-    verdict_return key_text e a = MDone true <-> exists v, a = UVal v /\ equiv_exact false e v.
+    verdict_return key_text e a = MDone true <-> exists v, a = UVal v /\ equiv false e v.
   Proof. exact (verdict_return_iff key_text). Qed.
 
   (* "expectResource only when a create or patch was attempted and the object
@@ -119,7 +108,7 @@ Section C19.
     e <> JNull ->
     (verdict_resource key_text e mat a = MDone true <->
      exists m m' d msg loc, mat = Some m /\ a = UOut (Retry d msg loc) /\
-                            strip_last_applied m = Some m' /\ equiv_exact false e m').
+                            strip_last_applied m = Some m' /\ equiv false e m').
   Proof. exact (verdict_resource_iff key_text). Qed.
 
   (* ... "a create or patch": the last call sent a body, provided the expectation
@@ -193,8 +182,9 @@ Proof.
   apply D_here, DR_kind. discriminate.
 Qed.
 
-(* non-vacuity of C19_tmatch_iff_regular: an expectation with both directives that
-   is [regular], the shuffled value it describes, and a value with one member changed *)
+(* non-vacuity of C19_tmatch_total / C19_tmatch_iff with directives: an expectation
+   with both directives that is [regular], the shuffled value it describes, and a
+   value with one member changed *)
 Example C19_nonvacuous_directives :
   let t := JMap [("tags"%string, JList [JStr "b"; JStr "a"; JInt 3]);
                  (K_SET, JList [JStr "tags"]);
@@ -207,18 +197,17 @@ Example C19_nonvacuous_directives :
   let a' := JMap [("ports"%string, JList [JMap [("name"%string, JStr "http"); ("port"%string, JInt 81)];
                                           JMap [("name"%string, JStr "https"); ("port"%string, JInt 443)]]);
                   ("tags"%string, JList [JInt 3; JStr "a"; JStr "b"])] in
-  regular py_key_text t = true /\ nobool_lists a = true /\ nobool_lists a' = true /\
+  regular py_key_text t = true /\
   tmatch py_key_text t a = MDone true /\ tmatch py_key_text t a' = MDone false.
 Proof. cbv zeta. repeat split; vm_compute; reflexivity. Qed.
 
 Print Assumptions C19_fuel.
-Print Assumptions C19_tmatch_exact.
 Print Assumptions C19_tmatch_complete.
 Print Assumptions C19_tmatch_iff.
-Print Assumptions C19_tmatch_iff_regular.
-Print Assumptions C19_tmatch_sound_strict_refuted_set_bool.
-Print Assumptions C19_tmatch_sound_strict_refuted_map_empty.
-Print Assumptions C19_tmatch_total_refuted.
+Print Assumptions C19_tmatch_total.
+Print Assumptions C19_set_bool_number_kept_apart.
+Print Assumptions C19_map_actual_not_a_list_fails.
+Print Assumptions C19_map_empty_string_is_not_the_empty_list.
 Print Assumptions C19_single_deviation_fails.
 Print Assumptions C19_single_deviation_of_assertion_fails.
 Print Assumptions C19_apart_fails.
